@@ -92,11 +92,11 @@ Print Assumptions c17_session_held_not_kicked.
 (** Exit condition, "only if": the process is gone only because of SIGTERM, or because the main
     loop received an exit message that was sent by a drain delivery that saw total = 0 in admin-only
     mode, or by the timer (armed by a SIGINT). *)
-Theorem c17_exit_condition : forall tz tr st x, run (init tz) tr = Some st -> exited st = Some x ->
+Theorem c17_exit_condition : forall tz cap tr st x, run (init tz cap) tr = Some st -> exited st = Some x ->
   match x with
   | ByTerm => In Sigterm tr
   | ByZero => In ExitDeliver tr /\
-              exists tr1 tr2 s1, tr = tr1 ++ DrainDeliver :: tr2 /\ run (init tz) (tr1 ++ [DrainDeliver]) = Some s1 /\
+              exists tr1 tr2 s1, tr = tr1 ++ DrainDeliver :: tr2 /\ run (init tz cap) (tr1 ++ [DrainDeliver]) = Some s1 /\
                                  admin_only s1 = true /\ total s1 = 0
   | ByTimer => In ExitDeliver tr /\ exists tr1 tr2, tr = tr1 ++ TimerFire :: tr2 /\ In Sigint tr1
   end.
@@ -171,24 +171,35 @@ Proof. exact wedge_forever. Qed.
 Print Assumptions c17_wedge_is_forever.
 
 Theorem c17_wedge_origin : forall st e st', step st e = Some st' -> wedged st = false -> wedged st' = true ->
-  e = DrainDeliver /\ exit_q st <> None /\ total st' = 0 /\ admin_only st = true.
+  (e = DrainDeliver /\ exit_q st <> None /\ total st' = 0 /\ admin_only st = true) \/
+  (e = Sigint /\ admin_only st = false /\ (qcap st <= length (queue st))%nat).
 Proof. exact wedge_origin. Qed.
 Print Assumptions c17_wedge_origin.
 
 (** "exits once all clients have left or shutdown_timeout has passed" is FALSE on these schedules:
     every client has left AND the timeout has passed, and no continuation whatsoever exits. *)
-Theorem c17_exit_liveness_refuted : exists tr st, run (init false) tr = Some st /\
+Theorem c17_exit_liveness_refuted : exists tr st, run (init false 2048) tr = Some st /\
   all_gone st = true /\ tmr st = TBlocked /\ total st = 0 /\ queue st = [] /\
   forall tr' st', run st tr' = Some st' -> exited st' = None.
 Proof. exact exit_liveness_refuted. Qed.
 Print Assumptions c17_exit_liveness_refuted.
 
+(** schedule W3: SIGINT while the drain channel is full (a burst of cancel requests or of
+    connects/disconnects that the main loop has not received yet): the loop is suspended in its own
+    [drain_tx.send(0)] BEFORE the timer task exists — admin-only mode, every client gone, no timer,
+    no exit, for ever.  (Witness computed for a 64-slot channel and 32 requests; the real bound is 2048.) *)
+Theorem c17_sigint_on_full_channel_refuted : exists cap tr st, run (init false cap) tr = Some st /\
+  all_gone st = true /\ admin_only st = true /\ tmr st = TNone /\
+  forall tr' st', run st tr' = Some st' -> exited st' = None /\ tmr st' = TNone.
+Proof. exact sigint_full_refuted. Qed.
+Print Assumptions c17_sigint_on_full_channel_refuted.
+
 (** the guard under which the liveness theorems above speak: [known_wedge tz tr] = the trace wedges *)
-Theorem c17_known_wedge_inhabited : exists tr, known_wedge false tr = true.
+Theorem c17_known_wedge_inhabited : exists tr, known_wedge false 2048 tr = true.
 Proof. exact known_wedge_refuted. Qed.
 Print Assumptions c17_known_wedge_inhabited.
 
-Theorem c17_exit_liveness_guarded : forall tz tr st, run (init tz) tr = Some st -> known_wedge tz tr = false ->
+Theorem c17_exit_liveness_guarded : forall tz cap tr st, run (init tz cap) tr = Some st -> known_wedge tz cap tr = false ->
   exited st = None -> admin_only st = true -> tzero st = false ->
   exists tr' st', run st tr' = Some st' /\ exists x, exited st' = Some x /\ x <> ByTerm.
 Proof. exact exit_liveness_guarded. Qed.
@@ -201,8 +212,8 @@ Print Assumptions c17_zero_timeout_no_timer.
 
 (** * Non-vacuity / spec validation (every example is a full run from [init]) *)
 
-Definition final (tz : bool) (tr : list event) := option_map view (run (init tz) tr).
-Definition final_script (tz : bool) (s : list sop) := option_map view (run_script (init tz) s).
+Definition final (tz : bool) (tr : list event) := option_map view (run (init tz 2048) tr).
+Definition final_script (tz : bool) (s : list sop) := option_map view (run_script (init tz 2048) s).
 
 (** The scenario of the property text: an idle client (0), a client inside a transaction (1) and an
     admin (2); SIGINT; a new normal client (3) and a new admin (4) arrive.  0 is kicked, 3 refused, 4
@@ -285,6 +296,17 @@ Example ex_wedge :
   final false [Accept Normal TxnMode; AuthDone 0 true; DrainDeliver; Leave 0 Clean; Sigint; DrainDeliver; ExitDeliver]
   = Some (true, 0, Some ByZero, false, [(Gone, false)], [OAdmitted 0; OLeft 0 Clean; OExit ByZero], 0).
 Proof. vm_compute. repeat split; reflexivity. Qed.
+
+(** W3 on a 4-slot channel: two cancel requests not yet received, then SIGINT *)
+Example ex_wedge_full :
+  option_map view (run (init false 4) [Accept Canc TxnMode; AuthDone 0 true; Leave 0 Clean;
+                                       Accept Canc TxnMode; AuthDone 1 true; Leave 1 Clean; Sigint])
+  = Some (true, 0, None, true, [(Gone, false); (Gone, false)], [OLeft 0 Clean; OLeft 1 Clean], 0)
+  /\
+  option_map view (run (init false 5) [Accept Canc TxnMode; AuthDone 0 true; Leave 0 Clean;
+                                       Accept Canc TxnMode; AuthDone 1 true; Leave 1 Clean; Sigint])
+  = Some (true, 0, None, false, [(Gone, false); (Gone, false)], [OLeft 0 Clean; OLeft 1 Clean], 0).
+Proof. vm_compute. split; reflexivity. Qed.
 
 (** shutdown_timeout = 0 with a session-held client: the timer is dead, nothing ends the process *)
 Example ex_zero_timeout :
